@@ -36,11 +36,11 @@ static void HarnessAbort(const char * why) { fprintf(stderr, "HARNESS-ABORT: %s\
 // ---- observation counters: plain per-thread arrays (no shared cache line, no synchronisation), summed by the main thread
 enum { C_CTOR, C_DTOR, C_OBTAIN, C_HEAPNEW, C_RECYCLE, C_HEAPDTOR, C_SLABOBJ_DTOR, C_OFFTHREAD, C_NESTED, C_DROP, C_DEREF, C_DEREF_NONCOUNTING,
        C_TAKE, C_PUT, C_ASSIGN, C_COPYCTOR, C_RESET, C_SWAP, C_CONST_IN, C_CONST_OUT, C_SETREF_OFF, C_SETREF_ON, C_NEUTRALIZE, C_NEUTRALIZE_SOLE, C_MOVE, C_DUMMY,
-       C_GENERIC, C_RAWSET, C_CLONE_POOL, C_CLONE_HEAP, C_ENSURE_PRIVATE, C_STATUS, C_SELF, C_SANITY, C_DRAIN, C_CHILD_LINK, NC };
+       C_GENERIC, C_RAWSET, C_SETREF_OTHER_ON_OFF, C_SETREF_OTHER_OFF_ON, C_ASSIGN_OTHER_MODE, C_SWAP_MODES, C_CLONE_POOL, C_CLONE_HEAP, C_ENSURE_PRIVATE, C_STATUS, C_SELF, C_SANITY, C_DRAIN, C_CHILD_LINK, NC };
 static const char * const CName[NC] = { "objects_constructed", "objects_destroyed", "pool_obtains", "heap_objects_created", "pool_recycles", "heap_objects_deleted",
    "pooled_objects_destroyed_by_slab_deletion", "last_drop_on_other_thread_than_creator", "nested_releases", "reference_drops", "monitored_dereferences", "dereferences_through_noncounting_ref",
    "op_mailbox_take", "op_mailbox_put", "op_assign", "op_copy_construct", "op_reset", "op_swap", "op_to_constref", "op_cast_away_const", "op_setref_counting_off", "op_setref_counting_on",
-   "op_neutralize", "op_neutralize_sole_owner", "op_move", "op_dummyref", "op_refcountableref_roundtrip", "op_setref_raw_pointer", "op_clone_pooled", "op_clone_heap", "op_ensure_private",
+   "op_neutralize", "op_neutralize_sole_owner", "op_move", "op_dummyref", "op_refcountableref_roundtrip", "op_setref_raw_pointer", "op_setref_other_object_mode_change_on_to_off", "op_setref_other_object_mode_change_off_to_on", "op_assign_other_object_mode_change", "op_swap_different_modes", "op_clone_pooled", "op_clone_heap", "op_ensure_private",
    "op_status", "op_self_assign", "op_sanity_check_concurrent", "op_drain_concurrent", "objects_holding_a_child_reference" };
 
 static std::atomic<int> g_bad(0);
@@ -287,11 +287,11 @@ static void Audit(CaseState & cs, bool quiescent)
 static const char g_errText[] = "XEven error\0Odd error";   // two error strings 11 bytes apart: one at an even and one at an odd address
 static status_t ErrOf(int i) { switch (i & 3) { case 0: return status_t(g_errText + 1); case 1: return status_t(g_errText + 12); case 2: return B_BAD_ARGUMENT; default: return B_OUT_OF_MEMORY; } }
 
-enum { OP_CREATE, OP_TAKE, OP_PUT, OP_COPY, OP_DROP, OP_SWAP, OP_CONST_IN, OP_CONST_OUT, OP_USE, OP_TEMP, OP_SETREF, OP_NEUTRAL, OP_MOVE, OP_DUMMY, OP_GENERIC, OP_RAWSET, OP_CLONE, OP_STATUS, OP_SELF, OP_PRIVATE };
+enum { OP_CREATE, OP_TAKE, OP_PUT, OP_COPY, OP_DROP, OP_SWAP, OP_CONST_IN, OP_CONST_OUT, OP_USE, OP_TEMP, OP_SETREF, OP_NEUTRAL, OP_MOVE, OP_DUMMY, OP_GENERIC, OP_RAWSET, OP_CLONE, OP_STATUS, OP_SELF, OP_PRIVATE, OP_MODESWITCH };
 static const int g_mixedTable[] = { OP_CREATE, OP_CREATE, OP_CREATE, OP_CREATE, OP_TAKE, OP_TAKE, OP_TAKE, OP_TAKE, OP_TAKE, OP_PUT, OP_PUT, OP_PUT, OP_PUT, OP_PUT, OP_COPY, OP_COPY, OP_COPY, OP_DROP, OP_DROP, OP_DROP,
-   OP_SWAP, OP_SWAP, OP_CONST_IN, OP_CONST_IN, OP_CONST_OUT, OP_CONST_OUT, OP_USE, OP_USE, OP_USE, OP_TEMP, OP_TEMP, OP_SETREF, OP_SETREF, OP_NEUTRAL, OP_NEUTRAL, OP_MOVE, OP_DUMMY, OP_GENERIC, OP_RAWSET, OP_CLONE, OP_STATUS, OP_SELF, OP_PRIVATE };
+   OP_SWAP, OP_SWAP, OP_CONST_IN, OP_CONST_IN, OP_CONST_OUT, OP_CONST_OUT, OP_USE, OP_USE, OP_USE, OP_TEMP, OP_TEMP, OP_SETREF, OP_SETREF, OP_NEUTRAL, OP_NEUTRAL, OP_MOVE, OP_DUMMY, OP_GENERIC, OP_RAWSET, OP_CLONE, OP_STATUS, OP_SELF, OP_PRIVATE, OP_MODESWITCH, OP_MODESWITCH, OP_MODESWITCH, OP_MODESWITCH };
 static const int g_hotTable[] = { OP_TAKE, OP_TAKE, OP_TAKE, OP_TAKE, OP_TAKE, OP_TAKE, OP_PUT, OP_PUT, OP_PUT, OP_PUT, OP_PUT, OP_PUT, OP_COPY, OP_COPY, OP_COPY, OP_DROP, OP_DROP, OP_DROP,
-   OP_SWAP, OP_SWAP, OP_CONST_IN, OP_CONST_OUT, OP_CONST_OUT, OP_USE, OP_USE, OP_TEMP, OP_TEMP, OP_SETREF, OP_NEUTRAL, OP_MOVE, OP_DUMMY, OP_GENERIC, OP_RAWSET, OP_SELF };
+   OP_SWAP, OP_SWAP, OP_CONST_IN, OP_CONST_OUT, OP_CONST_OUT, OP_USE, OP_USE, OP_TEMP, OP_TEMP, OP_SETREF, OP_NEUTRAL, OP_MOVE, OP_DUMMY, OP_GENERIC, OP_RAWSET, OP_SELF, OP_MODESWITCH, OP_MODESWITCH, OP_MODESWITCH };
 
 static void Create(Th & T, H & dst)
 {
@@ -395,6 +395,34 @@ static void DoOp(Th & T)
          H z; if (strcmp(z.r.GetStatus()(), B_NULL_REF()) != 0) { Fail("default_reference_status", z.r.GetStatus()()); break; }
          (void)Check(u); (void)Check(c); } break;
    case OP_SELF: OpNote("self-assign"); Cnt(C_SELF); A.r = A.r; A.r.SetRef(A.r(), A.r() != NULL); A.r.SwapContents(A.r); C.r = C.r; Use(A); Use(C); break;
+   case OP_MODESWITCH: if (A.r() && B.r() && A.r() != B.r()) {
+         // a NON-NULL reference changes its object AND its counting mode in one step (both directions, SetRef / operator= / swap, Ref and
+         // ConstRef).  A keeps X alive and B keeps Y alive throughout (same thread), so every non-counting dereference is balanced; a
+         // non-counting reference never contributes to nor removes from the count (the shadow bookkeeping of Hold follows 'counting').
+         switch (g.R(9)) {
+         case 0: { OpNote("setref-other-off-to-on"); H t; t.r.SetRef(A.r(), false); t.serial = A.serial; t.counting = false; Use(t);
+                   t.Down(); t.r.SetRef(B.r(), true); t.serial = B.serial; t.counting = true; t.Up(); Cnt(C_SETREF_OTHER_OFF_ON); Use(t); Use(A); if (g.R(2)) Assign(A, t); } break;
+         case 1: { OpNote("setref-other-on-to-off"); H t(A); Use(t);
+                   t.Down(); t.r.SetRef(B.r(), false); t.serial = B.serial; t.counting = false; Cnt(C_SETREF_OTHER_ON_OFF); Use(t); Use(A);
+                   if (g.R(2)) { t.r.SetRef(t.r(), true); t.counting = true; t.Up(); Cnt(C_SETREF_ON); Use(t); Assign(A, t); } } break;
+         case 2: { OpNote("constref-setref-other-off-to-on"); CH t; t.r.SetRef(A.r(), false); t.serial = A.serial; t.counting = false; Use(t);
+                   t.Down(); t.r.SetRef(B.r(), true); t.serial = B.serial; t.counting = true; t.Up(); Cnt(C_SETREF_OTHER_OFF_ON); Use(t); Use(A); if (g.R(2)) Assign(C, t); } break;
+         case 3: { OpNote("constref-setref-other-on-to-off"); CH t; Assign(t, A); Use(t);
+                   t.Down(); t.r.SetRef(B.r(), false); t.serial = B.serial; t.counting = false; Cnt(C_SETREF_OTHER_ON_OFF); Use(t); Use(A); } break;
+         case 4: { OpNote("assign-other-off-to-on"); H t; t.r.SetRef(A.r(), false); t.serial = A.serial; t.counting = false; Use(t);
+                   H u(B); Assign(t, u); Cnt(C_ASSIGN_OTHER_MODE); Use(t); Use(u); Use(A); if (g.R(2)) Assign(A, t); } break;
+         case 5: { OpNote("assign-other-on-to-off"); H t(A); H u; u.r.SetRef(B.r(), false); u.serial = B.serial; u.counting = false; Use(u);
+                   Assign(t, u); Cnt(C_ASSIGN_OTHER_MODE); Use(t); Use(u); Use(A); Use(B); } break;
+         case 6: { OpNote("constref-assign-other-off-to-on"); DummyConstTrackedRef dx(A.r()); CH t; t.r = dx; t.serial = A.serial; t.counting = false; Use(t);
+                   CH u; Assign(u, B); Assign(t, u); Cnt(C_ASSIGN_OTHER_MODE); Use(t); Use(u); Use(A); if (g.R(2)) Assign(C, t); } break;
+         case 7: { OpNote("constref-assign-other-on-to-off"); CH t; Assign(t, A); DummyConstTrackedRef dy(B.r()); CH u; u.r = dy; u.serial = B.serial; u.counting = false;
+                   Assign(t, u); Cnt(C_ASSIGN_OTHER_MODE); Use(t); Use(A); Use(B);
+                   TrackedRef ca = CastAwayConstFromRef(t.r); if (ca.IsRefCounting() || ca() != B.r()) { Fail("isrefcounting_flag_wrong", "CastAwayConstFromRef() of a non-counting ConstRef"); break; } } break;
+         default: { OpNote("swap-different-modes"); H t(A); H u; u.r.SetRef(B.r(), false); u.serial = B.serial; u.counting = false;
+                   if (g.R(2)) Swap(t, u); else { t.r = std::move(u.r); std::swap(t.serial, u.serial); std::swap(t.counting, u.counting); }   // move-assignment is documented as a swap
+                   Cnt(C_SWAP_MODES); (void)Check(t); (void)Check(u); Use(t); Use(u); Use(A); Use(B); } break;
+         }
+      } break;
    case OP_PRIVATE: if (cs.single && A.r()) {
          // exact in the single-threaded phase only: private <=> exactly one reference
          OpNote("ensure-private"); Cnt(C_ENSURE_PRIVATE);
@@ -585,6 +613,35 @@ static void Regress()
         if (b->st.load() != IN_USE || b->GetRefCount() != 1) RFail("child_kept_alive", ""); }
       if (g_mainCnt[C_RECYCLE] - r0 != 2 || a->st.load() != POOLED || b->st.load() != POOLED) RFail("nested_release", vh::fmt("%ld recycles", g_mainCnt[C_RECYCLE] - r0));
       p->Sanity(); delete p;
+   }
+   vh::begin_case(k++);
+   { // (a) a non-owning reference to X that is reassigned to an owning reference of another object Y must leave X's count alone
+      PoolBox * p = MakePool(1, 4); Tracked * x = p->Obtain(); x->st.store(IN_USE); Tracked * y = p->Obtain(); y->st.store(IN_USE); const long r0 = g_mainCnt[C_RECYCLE];
+      { TrackedRef ownX(x), ownY(y);
+        TrackedRef d; d.SetRef(x, false); d = ownY;
+        if (x->GetRefCount() != 1 || x->st.load() != IN_USE || y->GetRefCount() != 2 || !d.IsRefCounting() || d() != y) RFail("nonowning_ref_reassigned_to_owning_ref_of_other_object", vh::fmt("operator=: X count %d (%s), Y count %d", (int)x->GetRefCount(), StName(x->st.load()), (int)y->GetRefCount()));
+        TrackedRef e; e.SetRef(x, false); e.SetRef(y, true);
+        if (x->GetRefCount() != 1 || x->st.load() != IN_USE || y->GetRefCount() != 3 || !e.IsRefCounting()) RFail("nonowning_ref_reassigned_to_owning_ref_of_other_object", vh::fmt("SetRef: X count %d (%s), Y count %d", (int)x->GetRefCount(), StName(x->st.load()), (int)y->GetRefCount()));
+        DummyConstTrackedRef dc(x); ConstTrackedRef c = dc; ConstTrackedRef cy = ownY; c = cy;
+        if (x->GetRefCount() != 1 || x->st.load() != IN_USE || y->GetRefCount() != 5 || !c.IsRefCounting()) RFail("nonowning_ref_reassigned_to_owning_ref_of_other_object", vh::fmt("ConstRef: X count %d (%s), Y count %d", (int)x->GetRefCount(), StName(x->st.load()), (int)y->GetRefCount()));
+        if (x->st.load() == IN_USE) { Tracked * again = p->Obtain(); if (again == x) RFail("pool_hands_out_object_that_is_still_owned", ""); again->st.store(IN_USE); TrackedRef ra(again); } }
+      if (vh::violations() == 0 && g_mainCnt[C_RECYCLE] - r0 != 3) RFail("release_count_after_mode_switch", vh::fmt("%ld recycles, expected 3", g_mainCnt[C_RECYCLE] - r0));
+      if (vh::violations() == 0) { p->Sanity(); delete p; }
+   }
+   vh::begin_case(k++);
+   { // (b) an owning reference of X that is reassigned to a non-owning reference of another object Y must drop X
+      PoolBox * p = MakePool(2, 4); Tracked * x = p->Obtain(); x->st.store(IN_USE); Tracked * y = p->Obtain(); y->st.store(IN_USE); const long r0 = g_mainCnt[C_RECYCLE]; const long v0 = vh::violations();
+      { TrackedRef ownY(y);
+        { TrackedRef ownX(x); TrackedRef c(ownX); DummyTrackedRef dy(*y); c = dy;
+          if (x->GetRefCount() != 1 || y->GetRefCount() != 1 || c.IsRefCounting() || c() != y) RFail("owning_ref_reassigned_to_nonowning_ref_of_other_object", vh::fmt("operator=: X count %d, Y count %d", (int)x->GetRefCount(), (int)y->GetRefCount()));
+          TrackedRef c2(ownX); c2.SetRef(y, false);
+          if (vh::violations() == v0 && (x->GetRefCount() != 1 || y->GetRefCount() != 1 || c2.IsRefCounting())) RFail("owning_ref_reassigned_to_nonowning_ref_of_other_object", vh::fmt("SetRef: X count %d, Y count %d", (int)x->GetRefCount(), (int)y->GetRefCount()));
+          TrackedRef s1(ownX), s2; s2.SetRef(y, false); s1.SwapContents(s2);
+          if (vh::violations() == v0 && (s1.IsRefCounting() || !s2.IsRefCounting() || s1() != y || s2() != x || x->GetRefCount() != 2 || y->GetRefCount() != 1)) RFail("swap_between_refs_of_different_modes", ""); }
+        if (vh::violations() == v0 && (x->st.load() != POOLED || g_mainCnt[C_RECYCLE] - r0 != 1)) RFail("object_not_released_after_owning_ref_became_nonowning", vh::fmt("X is %s, count %d", StName(x->st.load()), (int)x->GetRefCount()));
+        if (vh::violations() == v0 && (y->st.load() != IN_USE || y->GetRefCount() != 1)) RFail("nonowning_refs_changed_the_count", ""); }
+      if (vh::violations() == v0 && g_mainCnt[C_RECYCLE] - r0 != 2) RFail("release_count_after_mode_switch", vh::fmt("%ld recycles, expected 2", g_mainCnt[C_RECYCLE] - r0));
+      if (vh::violations() == v0) { p->Sanity(); delete p; }     // after a failed witness the pool is left alone (it would MCRASH on the leaked object)
    }
    for (long i = 0; i < k; i++) vh::distinct((uint64_t)i + 1);
    vh::stat("regress_cases", k);
